@@ -633,6 +633,21 @@ def gen_program(rng, style=None, **kw):
     return layout(rng, items, style), items, g.features
 
 
+LOOKALIKE_LINES = [b'__index__ is', b'__gfx__x', b'__x__ y', b'__lua', b'_lua__', b'#include foo', b'-->9', b'version 8', b'pico-8 cartridge',
+                   b'__lua__ ', b'::c::', b':c:', b'__init__(self)', b' __gfx__', b'__gfx__ ']
+
+
+def lookalike_programs():
+    """Programs in which a line INSIDE a long string, a long comment or a continued quoted string begins like something the cart formats
+    give a meaning to at the start of a line (a section header, an include, a tab cut) without being it: to every tool it is text."""
+    out = []
+    for ll in LOOKALIKE_LINES:
+        out.append(b'local s = [[a\n' + ll + b'\nb]]\nx = #s\n')
+        out.append(b'--[[ c\n' + ll + b'\n]]\nx = 1\n')
+        out.append(b'local t = [==[\n' + ll + b']==] y = "a\\\n' + ll + b'"\n')
+    return out
+
+
 def word_program(rng, w, style=None):
     """A fixed program in which the identifier `w` stands in every syntactic position an identifier can have (operand of every unary
     operator, assignment target, field, method, function name, parameter, loop variable, table key, label, goto target, call with
@@ -677,7 +692,7 @@ def word_programs(rng, per_word=1):
     out = []
     for w in source_words():
         for k in range(per_word):
-            out.append(word_program(rng, w, style=['spaced', 'random', 'lines', 'compact'][k % 4] if per_word > 1 else None))
+            out.append(word_program(rng, w, style=['spaced', 'random', 'lines', 'compact'][k % 4]))
     return out
 
 
